@@ -333,6 +333,7 @@ def scale_alphabet():
 
 X5 = (-8, -2, 0, 3, 7)
 Y5 = (-7, -2, 0, 3, 6)
+XK = YK = (-4, -1, 0, 1, 4)  # for the 2..4 pixel wide overviews of the source (read_shrink > 1)
 
 
 def placements(dshape, k=1):
@@ -341,9 +342,10 @@ def placements(dshape, k=1):
     in overview pixels; the overview of the source has ceil(N/k) pixels."""
     ny, nx = dshape
     oy, ox = (-(-n // k) for n in SRC_SHAPE)
+    x5, y5 = (X5, Y5) if k == 1 else (XK, YK)
     return (
-        tuple(itertools.product(range(-(nx + 1), ox + 2), Y5)),
-        tuple(itertools.product(X5, range(-(ny + 1), oy + 2))),
+        tuple(itertools.product(range(-(nx + 1), ox + 2), y5)),
+        tuple(itertools.product(x5, range(-(ny + 1), oy + 2))),
     )
 
 
@@ -355,7 +357,7 @@ def space(tier):
     res_in = RES_IN + (RES_IN_MORE if th else ())
     res3 = (("t", 0.0), ("t", 0.9), ("t", 1.1))
     grids2 = tuple(GRIDS) if th else ("D-utm10", "R-deg0.1")
-    base = dict(grid=grids2, crs=("same",), dshape=((5, 5),), scales=_same(1, ("0",)), mirror=MIRRORS,
+    base = dict(grid=grids2, crs=("same",), dshape=((8, 9),), scales=_same(1, ("0",)), mirror=MIRRORS,
                 rot=("none",), shift=((0, 0),), res=_pairs(RES_IN), tol=(0,), dtype=("int16",))
 
     def P(**kw):
@@ -368,10 +370,10 @@ def space(tier):
     # 1. eligibility
     sp["eligibility"] = [
         # every scale class x residue {0, inside, outside}^2
-        P(scales=scale_alphabet(), shift=itertools.product((-8, 0, 5), (-2, 3)),
+        P(scales=scale_alphabet(), shift=itertools.product((-8, 0, 1), (-2, 1)),
           res=_pairs(res5), tol=TOLS),
         # scale within tolerance x every residue pair on either side of ttol
-        P(scales=eligible_scales, shift=itertools.product((-8, 5), (-2, 3)), res=_pairs(res_all), tol=TOLS),
+        P(scales=eligible_scales, shift=itertools.product((-8, 1), (-2, 1)), res=_pairs(res_all), tol=TOLS),
     ]
     # 2. rotation / shear on otherwise paste-able pairs
     sp["rotation-shear"] = [
@@ -465,7 +467,7 @@ def main(ctx):
     ctx.bounds = {
         "src_shape": SRC_SHAPE, "dst_shapes": DSHAPES,
         "placements": "per dst shape (ny,nx), overview (oy,ox)=ceil(src/k): Tx in [-(nx+1), ox+1] x Ty in Y5 and Tx in X5 x "
-                      "Ty in [-(ny+1), oy+1]; X5=%r Y5=%r; on a mirrored axis T is offset by the dst size" % (X5, Y5),
+                      "Ty in [-(ny+1), oy+1]; X5=%r Y5=%r (k=1), %r (k>1); on a mirrored axis T is offset by the dst size" % (X5, Y5, XK),
         "grids": {k: [list(v[0])[:6], v[1]] for k, v in GRIDS.items()},
         "tolerance_sets(ttol,stol)": {str(k): v for k, v in TOLS.items()},
         "residue_alphabet": {"inside": RES_IN + RES_IN_MORE, "outside": RES_OUT, "edge(thorough)": RES_EDGE,
